@@ -58,6 +58,8 @@ func (b *Bytes) Len() int {
 
 // View implements Blob.
 func (b *Bytes) View(start, end int64) (Blob, error) {
+	b.mu.Lock() // bounds are checked and used in one critical section, the blob may be resized concurrently
+	defer b.mu.Unlock()
 	if start < 0 || start > int64(b.Len()) {
 		return nil, fmt.Errorf("Start index out of bounds: %d", start)
 	}
@@ -67,8 +69,6 @@ func (b *Bytes) View(start, end int64) (Blob, error) {
 	if start > end {
 		return nil, fmt.Errorf("Start index %d is greater than end index %d", start, end)
 	}
-	b.mu.Lock()
-	defer b.mu.Unlock()
 	newB := NewBytes(b.bytes[start:end])
 	newB.mu = b.mu
 	return newB, nil
@@ -76,6 +76,8 @@ func (b *Bytes) View(start, end int64) (Blob, error) {
 
 // Slice implements Blob.
 func (b *Bytes) Slice(start, end int64) (Blob, error) {
+	b.mu.Lock()
+	defer b.mu.Unlock()
 	if start < 0 || start > int64(b.Len()) {
 		return nil, fmt.Errorf("Start index out of bounds: %d", start)
 	}
@@ -86,9 +88,7 @@ func (b *Bytes) Slice(start, end int64) (Blob, error) {
 		return nil, fmt.Errorf("Start index %d is greater than end index %d", start, end)
 	}
 	buf := make([]byte, end-start)
-	b.mu.Lock()
 	copy(buf, b.bytes[start:end])
-	b.mu.Unlock()
 	return NewBytes(buf), nil
 }
 
@@ -97,16 +97,16 @@ func (b *Bytes) Set(src Blob, destStart int64) (n int, err error) {
 	if destStart < 0 {
 		return 0, errors.New("negative offset")
 	}
-	if destStart >= int64(b.Len()) && destStart == 0 && src.Len() > 0 {
+	srcBytes := src.Bytes() // read before locking: src may be a view sharing this blob's mutex
+	b.mu.Lock()
+	defer b.mu.Unlock()
+	if destStart >= int64(b.Len()) && destStart == 0 && len(srcBytes) > 0 {
 		return 0, fmt.Errorf("Offset out of bounds: %d", destStart)
 	}
 	if destStart > int64(b.Len()) {
 		return 0, fmt.Errorf("Offset out of bounds: %d", destStart)
 	}
-	srcBytes := src.Bytes() // read before locking: src may be a view sharing this blob's mutex
-	b.mu.Lock()
 	n = copy(b.bytes[destStart:], srcBytes)
-	b.mu.Unlock()
 	return n, nil
 }
 
